@@ -99,18 +99,25 @@ def run(ck, rng, tier, prop="C01"):
             Vd, _ = np.linalg.qr(np.array([[rng.gauss(0, 1) for _ in range(m)] for _ in range(m)]))
             X = ((Qd * np.array([1e3, 9e2, 8e-3])) @ Vd.T + np.array([rng.uniform(-3, 3) for _ in range(m)])).tolist()
             ck.count("last component below 1e-10 of the total sum of squares")
+        if c == 10:
+            # the column of largest variance exactly uncorrelated with the dominant direction (a designed data set: x3 = +-1.2
+            # alternating, x1 and x2 strongly correlated with each other and exactly uncorrelated with x3): known finding
+            n, m, scaling, kind = 8, 3, 0, "general"
+            h1 = np.array([1.0, 1, -1, -1, 1, 1, -1, -1]); h2 = np.array([1.0, 1, 1, 1, -1, -1, -1, -1]); h3 = np.array([1.0, -1, 1, -1, 1, -1, 1, -1])
+            X = np.column_stack([h1, h1 + 0.25 * h2, 1.25 * h3]).tolist()
+            ck.count("largest-variance column uncorrelated with the dominant direction")
         from props import c02
         Xc = c02.preprocess(np.array(X), scaling)
         rank = int(np.linalg.matrix_rank(Xc, tol=1e-8 * max(1.0, np.abs(Xc).max())))
         if rank < 1:
             continue
         npc = rng.choice((1, rank, rank, rng.randint(1, rank)))
-        if c < 4 or c in (7, 8, 9):
+        if c < 4 or c in (7, 8, 9, 10):
             npc = rank
         nproc = rng.choice((1, 1, 2, 3, 5, 8, 16))
         if c in (4, 5):
             nproc = (2, 4)[c - 4]
-        if c in (8, 9):
+        if c in (8, 9, 10):
             nproc = 1
         New = [[rng.gauss(0, 1) for _ in range(m)] for _ in range(2)]
         lines.append("pca %s %s %d %d %d" % (vf.fmt_mat(X, m), vf.fmt_mat(New, m), scaling, npc, nproc))
@@ -169,7 +176,8 @@ def run(ck, rng, tier, prop="C01"):
         if np.abs(G - np.eye(npc)).max() > tol:
             bad = ("loadings_not_orthonormal", "max |P'P - I| = %.3g" % np.abs(G - np.eye(npc)).max())
         Er = E0 - Tm @ Pm.T
-        if bad is None and np.abs(Er @ Pm).max() > tol * nrm * max(1, n):
+        # (loadings are orthogonal to the convergence tolerance only: the bound grows with the number of components removed)
+        if bad is None and np.abs(Er @ Pm).max() > tol * nrm * max(1, n) * max(1.0, npc / 2.0):
             bad = ("residual_not_orthogonal", "max |(E0 - TP')P| = %.3g" % np.abs(Er @ Pm).max())
         # scores = successive projections
         Ek = E0.copy()
@@ -193,6 +201,21 @@ def run(ck, rng, tier, prop="C01"):
             bad = ("varexp_sum_not_100", "all components taken but explained variances sum to %.9g" % ve.sum())
         if bad is None and any(ve[k + 1] > ve[k] * (1 + 1e-6) + 1e-9 for k in range(npc - 1)):
             bad = ("varexp_increasing", "explained variances not non-increasing: %s" % ve)
+            # every extracted component a true principal axis (its share is an eigenvalue share of the cross-product matrix, all
+            # distinct ones) and only their ORDER wrong: the iteration stopped at a non-dominant stationary direction because the
+            # start column (largest variance) has no (or a < 1e-4) component along the dominant one — the known finding
+            lam = np.sort(np.linalg.eigvalsh(E0.T @ E0))[::-1]
+            shares = 100 * lam / max(lam.sum(), 1e-300)
+            left = list(shares)
+            ok_ = True
+            for v in ve:
+                j_ = min(range(len(left)), key=lambda q: abs(left[q] - v)) if left else None
+                if j_ is None or abs(left[j_] - v) > 1e-6 * 100:
+                    ok_ = False
+                    break
+                left.pop(j_)
+            if ok_:
+                bad = ("components_out_of_order", "every component is a principal axis but their explained variances are not non-increasing: %s" % ve)
         if bad is None and npc >= min(rank, m):
             B = np.array(o["back"])
             keep = [j for j in range(m) if scaling < 0 or abs(sc[j]) >= 1e-3 or Xa[:, j].std() == 0]
